@@ -125,7 +125,11 @@ func runC18(c *Ctx) {
 				switch x := v.(type) {
 				case *ssa.Call:
 					if f := x.Call.StaticCallee(); f != nil && f.Pkg != nil && f.Pkg.Pkg.Path() == "sync/atomic" {
-						src = "atomic-result"
+						if strings.HasPrefix(f.Name(), "Add") {
+							src = "atomic-result" // the read-modify-write's own result is unique per call
+						} else {
+							src = "separate atomic " + f.Name() + " of the counter"
+						}
 					}
 				case *ssa.UnOp:
 					if x.X == ssa.Value(g) {
